@@ -176,11 +176,7 @@ func runC15Case(c *Ctx, idx int) *CaseResult {
 			continue
 		}
 		// alternate between a cancellation and a deadline that expires at this instant
-		flavour := context.Canceled
-		if e%2 == 1 {
-			flavour = context.DeadlineExceeded
-		}
-		tctx := newTriggerCtx(flavour)
+		tctx, flavour := newTriggerCtxN(e)
 		cfg := RunCfg{MaxCycle: maxCycle, Ctx: tctx, Cancel: tctx.trigger, CancelAtEvent: e}
 		res := Run(kb, prog, CopyStateLive(init), cfg)
 		tctx.trigger()
@@ -201,6 +197,7 @@ func runC15Case(c *Ctx, idx int) *CaseResult {
 			d := caseDetail(text, "one", init, res, vs)
 			d["cancel_at_event"] = e
 			d["cancel_kind"] = res.Rec.CancelKind
+			d["flavour"] = flavour
 			cr.violate(fmt.Sprintf("cancel at boundary event %d (%s): %s", e, res.Rec.CancelKind, joinViol(vs[:min(2, len(vs))])), d)
 			continue
 		}
@@ -214,11 +211,7 @@ func runC15Case(c *Ctx, idx int) *CaseResult {
 			}
 		}
 		cr.inc("cancel_points_" + class)
-		if flavour == context.DeadlineExceeded {
-			cr.inc("points_ended_by_deadline")
-		} else {
-			cr.inc("points_ended_by_cancel")
-		}
+		cr.inc("points_ended_by_" + flavour)
 		// non-trivial: a further firing was still due at the instant of cancellation
 		if res.Err != nil {
 			cr.NonTrivial = append(cr.NonTrivial, hashStr(fmt.Sprintf("%s|%d", text, e)))
@@ -251,11 +244,7 @@ func runC15Case(c *Ctx, idx int) *CaseResult {
 		if err != nil {
 			continue
 		}
-		flavour := context.Canceled
-		if k%2 == 1 {
-			flavour = context.DeadlineExceeded
-		}
-		tctx := newTriggerCtx(flavour)
+		tctx, flavour := newTriggerCtxN(k)
 		cfg := RunCfg{MaxCycle: maxCycle, Ctx: tctx, Cancel: tctx.trigger, CancelAtErrCall: k}
 		res := Run(kb, prog, CopyStateLive(init), cfg)
 		tctx.trigger()
@@ -275,27 +264,34 @@ func runC15Case(c *Ctx, idx int) *CaseResult {
 		if len(vs) > 0 {
 			d := caseDetail(text, "one", init, res, vs)
 			d["context_ended_at_err_call"] = k
+			d["flavour"] = flavour
 			cr.violate(fmt.Sprintf("context ended just before its Err() call number %d: %s", k, joinViol(vs[:min(2, len(vs))])), d)
 			continue
 		}
 		cr.inc("ctx_err_call_points")
+		cr.inc("err_call_points_ended_by_" + flavour)
 		if res.Err != nil {
 			cr.NonTrivial = append(cr.NonTrivial, hashStr(fmt.Sprintf("%s|err%d", text, k)))
 		}
 	}
 	// pre-cancelled and expired contexts
-	for k := 0; k < 2; k++ {
+	for k := 0; k < 3; k++ {
 		kb, err := NewInstance(lib)
 		if err != nil {
 			continue
 		}
 		var ctx context.Context
 		var cancel context.CancelFunc
-		if k == 0 {
+		switch k {
+		case 0:
 			ctx, cancel = context.WithCancel(context.Background())
 			cancel()
-		} else {
+		case 1:
 			ctx, cancel = context.WithDeadline(context.Background(), time.Unix(1, 0))
+		default:
+			// cancelled early although its deadline is far away
+			ctx, cancel = context.WithTimeout(context.Background(), 1000*time.Hour)
+			cancel()
 		}
 		cfg := RunCfg{MaxCycle: maxCycle, Ctx: ctx}
 		res := Run(kb, prog, CopyStateLive(init), cfg)
@@ -313,7 +309,7 @@ func runC15Case(c *Ctx, idx int) *CaseResult {
 		if bad != "" {
 			cr.violate(bad, caseDetail(text, "one", init, res, nil))
 		} else {
-			cr.inc([]string{"pre_cancelled_runs", "expired_deadline_runs"}[k])
+			cr.inc([]string{"pre_cancelled_runs", "expired_deadline_runs", "pre_cancelled_with_future_deadline_runs"}[k])
 		}
 	}
 	// asynchronous part: a second goroutine cancels after a PRNG-chosen number of stamped events
@@ -326,6 +322,9 @@ func runC15Case(c *Ctx, idx int) *CaseResult {
 		ar := c.Rng(idx, 200+k)
 		stamp := new(int64)
 		ctx, cancel := context.WithCancel(context.Background())
+		if k%2 == 1 {
+			ctx, cancel = context.WithTimeout(context.Background(), 1000*time.Hour)
+		}
 		target := int64(1 + ar.Intn(len(base.Events)+2))
 		var pstamp int64
 		done := make(chan struct{})
